@@ -202,9 +202,13 @@ def _families_of(case, m):
     return out
 
 
-NARROW_MEASURED_FOR = () if os.environ.get("VERIF_FP_WIDE") else \
-    ("C01", "C05", "C07")       # VERIF_FP_WIDE=1: the old statement (for
-#                                 comparison runs only, see DESIGN 12)
+# The narrow statement is NOT used by default: the first quick run on a calm
+# machine found a violating case inside the wide statement and outside the
+# narrow one (OR{E2 OR{E4 | E5} E6 kill | E7 | E8} E9 seen as three of its 15
+# jobs; DESIGN section 12).  VERIF_FP_NARROW=1 switches it on for
+# measurement runs only.
+NARROW_MEASURED_FOR = ("C01", "C05", "C07") \
+    if os.environ.get("VERIF_FP_NARROW") else ()
 
 
 def _job_edges(jobs):
